@@ -44,7 +44,7 @@ read_byte(const Track::BitStream& bits, size_t& start)
   unsigned int clock=0, data=0;
   for (int bitnum = 0; bitnum < 8; ++bitnum)
     {
-      if (start + 2 >= bits.size())
+      if (start + 2 > bits.size())
 	return std::nullopt;
 
       clock = (clock << 1) | bits.getbit(start++);
